@@ -58,6 +58,7 @@ def judge(ctx, t, r, mode):
 
 
 def run(ctx):
+    ctx.no_watchdog()   # this check runs the implementation in worker processes / under its own alarms
     import hashlib, json
     rng = ctx.rng
     # tie to the public API surface of the working tree: a public callable the catalogue does not know
